@@ -44,6 +44,31 @@ type Target struct {
 	NoOrigin bool   // no origin placeholder available for this target
 	NoRan    bool   // leaf function: no "original ran" counter, the result alone tells
 	Known    string // id of the open known finding that makes this target unusable in ordinary plans
+	// ByName reports whether lookup path how applies callbacks by symbol name, directly on the
+	// UnExportedMocker (README: ExportFunc(n).Apply / ExportMethod(n).Apply / ExportStruct(s).Method(n).Apply):
+	// goom has no type information on that path, so ill-typed callbacks cannot be rejected there.
+	ByName func(how int) bool
+}
+
+// ueAdapter drives an UnExportedMocker through the ExportedMocker interface the interpreter uses:
+// Apply / Origin / Cancel go to the unexported mocker itself (the by-name path), stubs through As(sig).
+type ueAdapter struct {
+	u   mocker.UnExportedMocker
+	sig interface{}
+}
+
+func (a *ueAdapter) Apply(cb interface{})                 { a.u.Apply(cb) }
+func (a *ueAdapter) Cancel()                              { a.u.Cancel() }
+func (a *ueAdapter) Canceled() bool                       { return a.u.Canceled() }
+func (a *ueAdapter) String() string                       { return a.u.String() }
+func (a *ueAdapter) When(s ...interface{}) *mocker.When   { return a.u.As(a.sig).When(s...) }
+func (a *ueAdapter) Return(v ...interface{}) *mocker.When { return a.u.As(a.sig).Return(v...) }
+func (a *ueAdapter) Returns(v ...interface{}) *mocker.When {
+	return a.u.As(a.sig).Returns(v...)
+}
+func (a *ueAdapter) Origin(o interface{}) mocker.ExportedMocker {
+	a.u = a.u.Origin(o)
+	return a
 }
 
 // Targets is the corpus.
@@ -75,6 +100,50 @@ func localFoo(a int) int {
 	return a*3 + 1
 }
 
+// origin placeholders of the two localFoo targets
+var phLocalFoo = func(a int) (o int) {
+	fn.PhPad()
+	fn.PhPad()
+	fn.PhPad()
+	fn.PhPad()
+	fn.PhPad()
+	fn.PhPad()
+	fn.PhPad()
+	fn.PhPad()
+	fn.PhPad()
+	fn.PhPad()
+	fn.PhPad()
+	fn.PhPad()
+	return
+}
+
+var phOtherFoo = func(a int) (o int) {
+	fn.PhPad()
+	fn.PhPad()
+	fn.PhPad()
+	fn.PhPad()
+	fn.PhPad()
+	fn.PhPad()
+	fn.PhPad()
+	fn.PhPad()
+	fn.PhPad()
+	fn.PhPad()
+	fn.PhPad()
+	fn.PhPad()
+	return
+}
+
+func mkOriginInt(ph *func(int) int) func(rec *thunk.Rec) interface{} {
+	return func(rec *thunk.Rec) interface{} {
+		return func(a int) int {
+			rec.Enter([]interface{}{a})
+			o := (*ph)(a)
+			rec.OriginDone([]interface{}{o})
+			return o
+		}
+	}
+}
+
 // PkgLocal / PkgOther are the corpus indices of the two localFoo targets.
 var PkgLocal, PkgOther int
 
@@ -85,14 +154,21 @@ func initPkgFuncs() {
 	}
 	typ := reflect.TypeOf(sig)
 	local := &Target{Idx: len(Targets), Name: "github.com/tencent/goom/verifsim/worlds/hist.localFoo", Typ: typ, Entry: reflect.ValueOf(localFoo).Pointer(),
-		MkCb: mk, NumHow: 1, Kind: "pkgfunc", NoOrigin: true}
+		MkCb: mk, NumHow: 2, Kind: "pkgfunc", MkOrig: mkOriginInt(&phLocalFoo), Ph: &phLocalFoo, PhEntry: reflect.ValueOf(&phLocalFoo).Elem().Pointer()}
+	local.ByName = func(how int) bool { return how == 1 }
 	local.Call = func(form int, a []interface{}) []interface{} { return []interface{}{localFoo(fn.As[int](a[0]))} }
-	local.Lookup = func(b *mocker.Builder, how int) mocker.ExportedMocker { return b.ExportFunc("localFoo").As(sig) }
+	local.Lookup = func(b *mocker.Builder, how int) mocker.ExportedMocker {
+		if how == 1 {
+			return &ueAdapter{u: b.ExportFunc("localFoo"), sig: sig}
+		}
+		return b.ExportFunc("localFoo").As(sig)
+	}
 	local.Ref = func(a []interface{}) []interface{} { return []interface{}{fn.As[int](a[0])*3 + 1} }
 	local.RanCount = func() int64 { return fn.RanCount(90) }
 	PkgLocal = local.Idx
 	Targets = append(Targets, local)
-	other := &Target{Idx: len(Targets), Name: fn2.PkgPath + ".localFoo", Typ: typ, MkCb: mk, NumHow: 1, Kind: "pkgfunc", NoOrigin: true}
+	other := &Target{Idx: len(Targets), Name: fn2.PkgPath + ".localFoo", Typ: typ, MkCb: mk, NumHow: 2, Kind: "pkgfunc", MkOrig: mkOriginInt(&phOtherFoo), Ph: &phOtherFoo, PhEntry: reflect.ValueOf(&phOtherFoo).Elem().Pointer()}
+	other.ByName = func(how int) bool { return how == 1 }
 	if img, _ := simenv.Shared(); img != nil {
 		other.Entry = img.Lookup(other.Name)
 	}
@@ -100,6 +176,9 @@ func initPkgFuncs() {
 		return []interface{}{fn2.CallLocalFoo(fn.As[int](a[0]))}
 	}
 	other.Lookup = func(b *mocker.Builder, how int) mocker.ExportedMocker {
+		if how == 1 {
+			return &ueAdapter{u: b.Pkg(fn2.PkgPath).ExportFunc("localFoo"), sig: sig}
+		}
 		return b.Pkg(fn2.PkgPath).ExportFunc("localFoo").As(sig)
 	}
 	other.Ref = func(a []interface{}) []interface{} { return []interface{}{fn.As[int](a[0])*5 + 2} }
@@ -123,9 +202,13 @@ func initMethods() {
 		}
 		if m.Generic {
 			// the jump lands on the shared shape body behind the instantiation's wrapper
-			t.Name = meth.PkgPath + ".(*" + m.Recv + ")." + m.Name
+			open, close := ".(*", ")."
+			if m.RecvKind == "val" {
+				open, close = ".", "." // value receiver: pkg.GT[...].Name
+			}
+			t.Name = meth.PkgPath + open + m.Recv + close + m.Name
 			if img != nil {
-				if e := img.Lookup(meth.PkgPath + ".(*" + shapeOf[m.Recv] + ")." + m.Name); e != 0 {
+				if e := img.Lookup(meth.PkgPath + open + shapeOf[m.Recv] + close + m.Name); e != 0 {
 					t.Entry = e
 				}
 			}
@@ -144,19 +227,29 @@ func initMethods() {
 			}
 			t.SkipRecv = func(how int) bool { return how == 0 }
 		case "export":
+			t.NumHow = 2
 			t.Lookup = func(b *mocker.Builder, how int) mocker.ExportedMocker {
+				if how == 1 {
+					return &ueAdapter{u: b.Struct(m.Inst).ExportMethod(m.Name), sig: m.Sig}
+				}
 				return b.Struct(m.Inst).ExportMethod(m.Name).As(m.Sig)
 			}
 			t.SkipRecv = func(int) bool { return false }
+			t.ByName = func(how int) bool { return how == 1 }
 		case "ustruct":
 			name := m.Recv
 			if m.RecvKind == "ptr" {
 				name = "*" + name
 			}
+			t.NumHow = 2
 			t.Lookup = func(b *mocker.Builder, how int) mocker.ExportedMocker {
+				if how == 1 {
+					return &ueAdapter{u: b.Pkg(meth.PkgPath).ExportStruct(name).Method(m.Name), sig: m.Sig}
+				}
 				return b.Pkg(meth.PkgPath).ExportStruct(name).Method(m.Name).As(m.Sig)
 			}
 			t.SkipRecv = func(int) bool { return false }
+			t.ByName = func(how int) bool { return how == 1 }
 		}
 		t.Ref = func(args []interface{}) []interface{} { return fn.Compute(m.Global, m.Typ, args) }
 		t.RanCount = func() int64 { return fn.RanCount(m.Global) }
